@@ -1674,6 +1674,8 @@ BTree_maxminKey(BTree *self, PyObject *args, int min)
     {
         bucket = BTree_lastBucket(self);
         PER_UNUSE(self);
+        if (bucket == NULL)     /* a node on the way could not be loaded */
+            return NULL;
         UNLESS (PER_USE(bucket))
         {
             Py_DECREF(bucket);
